@@ -278,7 +278,7 @@ pub const WRITER_POINTS_LOOP: [&str; 4] = ["writer:startup", "writer:after_new",
 pub const WRITER_POINTS_NESTED: [&str; 4] = ["writer:in_clock_update", "writer:in_missing_update", "writer:before_write", "writer:after_write"];
 
 /// Deadline (s) between the worker's failure and the daemon's exit.
-pub const DEADLINE_S: f64 = 30.0;
+pub const DEADLINE_S: f64 = 12.0;
 
 /// Entry point of the child process (already inside the private namespace).
 pub fn c15_child(spec_json: &str) -> i32 {
@@ -537,10 +537,10 @@ impl Property for C15 {
     const ID: &'static str = "C15";
     const LEVEL: &'static str = "fault_enumeration";
     fn rule() -> String {
-        "enumerated: worker in {poller, writer} x named fault point (poller: startup, loop top, after the clock read, before/after send, before/after recv; writer: startup, after ShmWriter::new, loop top, after a message, inside process_clock_update / process_missing_clock_update, before/after the segment write) x n-th time the point is reached (0,1 quick; 0,1,2 thorough) x kind (panic; early return where that ends the thread) x chronyd (absent; silent = 3 s of timeouts per query; answering), plus hook-free natural faults (/run/clockbound is a regular file; PHC error-bound file unparsable from the start / turning unparsable after 1.5 s). Generated in addition: random combinations with random reply delays. Each case: thread_manager::run() in a child process inside a private mount namespace. Oracle: run() returns within 30 s of the failure (legitimate worst case ~4 s) and no worker thread is left alive; a child still running 60 s after start is killed and reported as lingering. Non-trivial: iteration >= 1, an answering chronyd, or a natural fault.".into()
+        "enumerated: worker in {poller, writer} x named fault point (poller: startup, loop top, after the clock read, before/after send, before/after recv; writer: startup, after ShmWriter::new, loop top, after a message, inside process_clock_update / process_missing_clock_update, before/after the segment write) x n-th time the point is reached (0,1 quick; 0,1,2 thorough) x kind (panic; early return where that ends the thread) x chronyd (absent; silent = 3 s of timeouts per query; answering), plus hook-free natural faults (/run/clockbound is a regular file; PHC error-bound file unparsable from the start / turning unparsable after 1.5 s). Generated in addition: random combinations with random reply delays. Each case: thread_manager::run() in a child process inside a private mount namespace. Oracle: run() returns within 12 s of the failure (legitimate worst case ~4 s: 1 s poll sleep + 3 x 1 s chrony timeouts) and no worker thread is left alive; a child still running 13 s after the failure (or 47 s after start when the failure never happens) is killed and reported as lingering. Non-trivial: iteration >= 1, an answering chronyd, or a natural fault.".into()
     }
     fn assumptions() -> Vec<String> {
-        vec!["promptness is decided with a 30 s deadline (7x the legitimate worst case); interleavings of the death notifications are those the OS scheduler produces plus the injected reply delays".into()]
+        vec!["promptness is decided with a 12 s deadline (3x the legitimate worst case); interleavings of the death notifications are those the OS scheduler produces plus the injected reply delays".into()]
     }
     fn cases(tier: Tier) -> u64 {
         match tier {
@@ -562,6 +562,20 @@ impl Property for C15 {
         let mut ex = Extra::default();
         let max_nth = if tier == Tier::Quick { 1 } else { 2 };
         let mut cases: Vec<FaultCase> = vec![];
+        // long outages: the writer dies after several "not responding" messages (any back-off or
+        // other state the poller builds up during an outage must not delay the exit)
+        for p in ["writer:after_message", "writer:before_write"] {
+            for nth in if tier == Tier::Quick { vec![3u32] } else { vec![3u32, 4, 5] } {
+                for chrony in [ChronyMode::Absent] {
+                    cases.push(FaultCase {
+                        fault: Some((p.to_string(), nth, true)),
+                        chrony: chrony.clone(),
+                        natural: Natural::None,
+                        reply_delay_ms: 0,
+                    });
+                }
+            }
+        }
         for chrony in [ChronyMode::Absent, ChronyMode::Answering, ChronyMode::Silent] {
             if tier == Tier::Quick && chrony == ChronyMode::Silent {
                 // quick: the silent chronyd only with a subset of the points (each costs >= 3 s)
